@@ -27,6 +27,7 @@ fn main() {
 		"http_client_batch_positional" => probes::http_client_batch_positional(),
 		"server_message_classification" => probes::server_message_classification(),
 		"client_send_failure_reports_cause" => probes::client_send_failure_reports_cause(),
+		"params_sequence_agrees_with_parse" => probes::params_sequence_agrees_with_parse(),
 		_ => json!({"probe": name, "error": "unknown probe"}),
 	};
 	println!("{}", res);
